@@ -599,6 +599,7 @@ pub fn run(ctx: &mut Ctx) {
                 }
             }
             Ok((out, added, special, b)) => {
+                ctx.hash_line(fam, case, b);
                 ctx.impl_line(&format!("lower {case} special={}", *special as u8));
                 ctx.impl_line(&format!("lower {case} out={}", out.join(",")));
                 ctx.impl_line(&format!("lower {case} added={added}"));
